@@ -588,7 +588,10 @@ def oracle(mod, spec, fields, C, S, fails, stats):
             bad("astuple differs")
         if x.total() != y.total():
             bad("method result differs", real=y.total(), expected=x.total())
-        if hasattr(y, "__dict__") != want_dict:
+        intro = _try(lambda: (hasattr(y, "__dict__"), sorted(n for n in dir(y) if n in names)))
+        if intro[0] == "err" or intro != _try(lambda: (want_dict, sorted(n for n in dir(x) if n in names))):
+            bad("introspection of an instance (hasattr __dict__, dir) differs from the plain class", real=intro, dict_flag=spec["dict"])
+        elif hasattr(y, "__dict__") != want_dict:
             bad("instance __dict__ present" if not want_dict else "instance __dict__ missing", dict_flag=spec["dict"])
         elif want_dict and any(n in vars(y) for n in names if n not in shadowed):
             bad("a field lives in the instance __dict__ instead of its slot", real=vars(y))
@@ -972,7 +975,13 @@ def _warn_child(_job):
                                              f"{type(e).__name__}: {e}"[:300]])
                     continue
                 inst = C(1)
-                if "__slots__" not in C.__dict__ or (hasattr(inst, "__dict__") != bool(flags.get("dict"))) or inst != C(1) or inst == C(2):
+                try:
+                    has_dict = hasattr(inst, "__dict__")
+                    dir(inst)
+                except Exception as e:  # noqa: BLE001
+                    bad.append([repr(flags), f"reading __dict__/dir() of an instance raised {type(e).__name__}: {e}"[:300]])
+                    continue
+                if "__slots__" not in C.__dict__ or (has_dict != bool(flags.get("dict"))) or inst != C(1) or inst == C(2):
                     bad.append([repr(flags), f"after a decoration that ended in {first}, the same name decorates to a class that is not slotted as asked"])
     return bad
 
